@@ -17,7 +17,7 @@ STUBS = ["(i/I_s)**0.02 (standard inverse): uninterpreted strictly increasing fu
          "devices are built with object.__new__ and the attributes protection_function reads; net.res_switch_sc / res_switch are one-row frames"]
 ASSUMPTIONS = ["consistently graded settings: 0 < I_s <= I_g <= I_gg, 0 <= t_gg <= t_g, tms > 0, t_grade >= 0, and for IDTOC t_g <= IDMT time at I_g",
                "two currents 0 < i1 <= i2 seen by the same device (2-safety)"]
-OUTSIDE = ["time_grading (graph search)", "pick-up current derivation in OCRelay.__init__", "plotting"]
+OUTSIDE = ["automatic time_grading (graph search over line paths; the manual DataFrame path is covered)", "pick-up current derivation in OCRelay.__init__", "plotting"]
 BOUNDS = {"quick": "DTOC; IDMT/IDTOC x {standard, very, extremely, long inverse}; fuse; scenario sc/pp/invalid", "thorough": "same"}
 
 
@@ -153,12 +153,41 @@ def make_fuse():
     return fn
 
 
+def make_manual_time_settings(variant):
+    """manual time settings (a DataFrame per switch): what the relay reads as t>, t>> (DTOC) resp. tms, t_grade (IDMT) for its switch are
+    the values the user entered for that switch - the real time_grading, read as OCRelay.__init__ reads its result"""
+    def fn(ctx):
+        import pandas as pd
+        oc = ctx.load("pandapower.protection.protection_devices.ocrelay")
+        n = 3
+        if variant == "DTOC":
+            cols = ["switch_id", "t_gg", "t_g"]
+        else:
+            cols = ["switch_id", "tms", "t_grade"]
+        vals = {c: [ctx.var(f"{c}_sw{k}", 0., 10.) for k in range(n)] for c in cols[1:]}
+        df = pd.DataFrame({"switch_id": list(range(n))})
+        for c in cols[1:]:
+            df[c] = ctx.series(vals[c])
+        out = oc.time_grading(None, df)
+        for k in range(n):
+            if variant == "DTOC":
+                ctx.eq(f"low_set_stage_time_is_the_entered_t_g/switch{k}", out.t_g[k], vals["t_g"][k])
+                ctx.eq(f"high_set_stage_time_is_the_entered_t_gg/switch{k}", out.t_gg[k], vals["t_gg"][k])
+            else:
+                ctx.eq(f"time_grading_delay_is_the_entered_t_grade/switch{k}", out.t_g[k], vals["t_grade"][k])      # OCRelay: t_grade = time_grading.t_g
+                ctx.eq(f"time_multiplier_is_the_entered_tms/switch{k}", out.t_gg[k], vals["tms"][k])            # OCRelay: tms = time_grading.t_gg
+            ctx.true(f"row_belongs_to_its_switch/switch{k}", int(out.switch_id[k]) == k)
+    return fn
+
+
 def instances(tier):
     out = [Inst("relay_DTOC", make_relay("DTOC", "standard_inverse"), nvars=20, samples=3, meta=dict(device="OCRelay", type="DTOC"))]
     for rt in ("IDMT", "IDTOC"):
         for cv in ("standard_inverse", "very_inverse", "extremely_inverse", "long_inverse"):
             out.append(Inst(f"relay_{rt}_{cv}", make_relay(rt, cv), nvars=24, samples=3, timeout_ms=60000, meta=dict(device="OCRelay", type=rt, curve=cv)))
     out.append(Inst("fuse", make_fuse(), nvars=16, samples=3, meta=dict(device="Fuse")))
+    for v in ("DTOC", "IDMT"):
+        out.append(Inst(f"manual_time_settings_{v}", make_manual_time_settings(v), nvars=12, samples=3, meta=dict(device="OCRelay", part="time_grading with a DataFrame", type=v)))
     return out
 
 
